@@ -536,12 +536,19 @@ def sym_isinstance(obj, cls):
     """isinstance replacement injected into the loaded torchtt modules."""
     if _builtin_isinstance(obj, Z):
         targets = cls if _builtin_isinstance(cls, tuple) else (cls,)
+        import numpy as _np
         for c in targets:
             if c is float and obj.kind in ('float', 'npfloat'):
                 return True
             if c is int and obj.kind == 'int':
                 return True
             if c is numbers.Number:
+                return True
+            if c in (_np.number, _np.generic) and obj.kind in ('npfloat', 'npfloat32', 'npint'):
+                return True
+            if c is _np.floating and obj.kind in ('npfloat', 'npfloat32'):
+                return True
+            if c is _np.integer and obj.kind == 'npint':
                 return True
         return _builtin_isinstance(obj, cls)
     if _builtin_isinstance(obj, C):
